@@ -18,8 +18,10 @@ import (
 
 func load(p unsafe.Pointer, size uintptr, what string) {
 	vrt.SyncPoint(what)
+	o := vrt.ObjAt(p)
+	vrt.SpinCheck(o) // may park a spin-waiting goroutine until the next store
 	vrt.AtomicAccess(p, size, false)
-	vrt.Acquire(vrt.ObjAt(p))
+	vrt.Acquire(o)
 }
 
 func store(p unsafe.Pointer, size uintptr, what string) {
